@@ -2,7 +2,22 @@ META = {
     "assumptions": ["allocation failure out of scope (--no-malloc-may-fail)"],
     "outside": ["e2fsck -b end-to-end recovery and 'every file intact' (whole tool)"],
 }
+def fb_uw(maxg):
+    nlog = 3 * maxg + 4
+    return ["ext2fs_flush2.0:%d" % (maxg + 1), "test_root.0:6"] + ["main.%d:%d" % (i, nlog + 1) for i in range(8)]
+
 HARNESSES = [
+    dict(name="flush_backups", src="flush_backups.c", extra_src=["lib/ext2fs/blknum.c"],
+         funcs=["ext2fs_flush2", "ext2fs_super_and_bgd_loc2", "ext2fs_bg_has_super", "write_backup_super",
+                "ext2fs_descriptor_block_loc2", "write_primary_superblock"],
+         configs=[{"MAXG": 10, "DESC_SHIFT": sh, "BPG": bpg, "_unwindset": fb_uw(10)}
+                  for sh, bpg in ((0, 8192), (1, 256), (3, 1024), (4, 256))] +
+                 [{"MAXG": 10, "DESC_SHIFT": 3, "BPG": 1024, "LATE": None, "_unwindset": fb_uw(10)}] +
+                 [{"MAXG": 28, "DESC_SHIFT": sh, "BPG": bpg, "_unwindset": fb_uw(28), "_tier": "thorough"}
+                  for sh in (0, 3, 4) for bpg in (256, 8192)],
+         unwind=6, backends=["default", "kissat", "z3"],
+         bound="1..10 (thorough: 28) groups, 1 KiB blocks, blocks per group 256..8192, descriptor size 32/64/256/512, "
+               "meta_bg/sparse_super/sparse_super2/64bit, s_first_meta_bg, reserved GDT blocks, MASTER_SB_ONLY/SUPER_ONLY: all symbolic"),
     dict(name="bg_has_super", src="bg_has_super.c",
          funcs=["ext2fs_bg_has_super", "test_root"],
          unwindset=["test_root.0:22", "ref_is_power.0:22"],
